@@ -789,6 +789,7 @@ def run(ck, tier):
     from ..share import import_findings as _imp
     ck.rule('R9', 'a packet handed to a fresh receiver delivers a message of the original type: the sub-function dispatch of both decoders reaches every registered code, sub-function 0 included (shared with C01 R4)')
     _imp(ck, 'C01', 'R9', ('R4',), 'the receiver of any framing delivers the bare base-class message instead of the message that was packed')
+    _imp(ck, 'C01', 'R9', ('R7',), 'the receiver of any framing delivers a message of another registered class than the one that was packed')
     from .. import ownership as _own2
     ck.rule('R10', 'no unsound memoisation (a caching decorator on a method, or on a function that returns a mutable container) in the modules this property rests on')
     ck.guard(_own2.rule_no_unsafe_memo, ck, cx, 'R10', ('pymodbus.framer', 'pymodbus.framer.socket_framer', 'pymodbus.framer.rtu_framer', 'pymodbus.framer.ascii_framer', 'pymodbus.framer.binary_framer', 'pymodbus.framer.tls_framer', 'pymodbus.utilities'), 'a packet is built or parsed from a value cached for another message')
